@@ -547,7 +547,7 @@ def gen_store_case(rng, prop, tier):
             if rng.random() < 0.3:
                 w["header"].append('##INFO=<ID=PS,Number=1,Type=Integer,Description="an INFO field that happens to be called PS">')
         n = rng.choice([1, 2, 3])
-        ops = [{"op": "unphase"} for _ in range(n)]
+        ops = [({"op": "unphase", "stdin": True} if rng.random() < 0.2 else {"op": "unphase"}) for _ in range(n)]
         return {"machine": "store", "world": W.clean_world(w), "ops": ops, "knobs": knobs, "state0": []}
 
     w = W.gen_core(rng, first_base_variant=0.15, pos_coincidence=0.4)
@@ -632,7 +632,7 @@ def gen_store_case(rng, prop, tier):
                 op["chroms"] = [rng.choice(chroms)]
             ops.append(op)
         elif name == "unphase":
-            ops.append({"op": "unphase"})
+            ops.append({"op": "unphase", "stdin": True} if rng.random() < 0.2 else {"op": "unphase"})
         else:
             op = {"op": "from_vcf", "source": rng.randrange(-1, k), "tag": rng.choice(["PS", "HP"]),
                   "base": rng.choice(["current", "current", "initial-unphased"])}
@@ -741,12 +741,17 @@ class StoreRun:
         touched = {(e["chrom"], s) for e in cap.calls for s in e["samples"]}
         return written, touched
 
-    def _unphase(self, src, dst):
+    def _unphase(self, src, dst, via_stdin=False):
         def work():
             from whatshap.cli.unphase import run_unphase
 
+            if via_stdin:
+                # `whatshap unphase - < file`: the file (plain, bgzipped or BCF) arrives on file descriptor 0
+                fd = os.open(src, os.O_RDONLY)
+                os.dup2(fd, 0)
+                os.close(fd)
             with open(dst, "w") as f:
-                run_unphase(src, f)
+                run_unphase("-" if via_stdin else src, f)
 
         call_in_fork(work)
 
@@ -801,6 +806,16 @@ class StoreRun:
             self.add("C09", "output-unreadable", "%s: output cannot be parsed: %s" % (what, e), "output-unreadable")
             return None
         in_samples, _, in_recs = raw_records(self.last_input)
+        # did this run change a genotype (--distrust-genotypes, --include-homozygous, hapchat under python -O where the guarding
+        # assertion is not executed, ...)?  Then "unphase gives the same records as unphasing the original" (U5) has lost its premise.
+        if len(in_recs) == len(recs):
+            for a, b in zip(in_recs, recs):
+                for smp in in_samples:
+                    ga, gb = a["calls"][smp]["gt"], b["calls"].get(smp, {}).get("gt")
+                    if ga is not None and gb is not None and None not in ga and None not in gb and sorted(ga) != sorted(gb):
+                        if self.baseline_unphased is not False:
+                            self.stats.inc("phase_changed_a_genotype")
+                        self.baseline_unphased = False
         # a statement is expected where the run handed heterozygous alleles to the writer for *the* record of that
         # position (under --distrust-genotypes the written genotype, not the input GT, decides heterozygosity)
         elig = eligible_records(in_recs, only_snvs)
@@ -1136,11 +1151,17 @@ class StoreRun:
             self.stats.inc("unphase_input_with_undeclared_phase_tags")
         from whatshap.cli import CommandLineError
 
+        via_stdin = bool(op.get("stdin"))
+        if via_stdin:
+            self.stats.inc("unphase_via_stdin")
         try:
-            self._unphase(src, out)
+            self._unphase(src, out, via_stdin=via_stdin)
         except (ChildRaised, ChildCrashed) as e:
             tname = getattr(e, "type_name", "ProcessDied")
             site = getattr(e, "site", "")
+            if via_stdin and (self.world.get("no_contig_lines") or self.world.get("omit_contig_lines")):
+                # known limitation (known_findings.json): standard input cannot be scanned for undeclared contigs first
+                site += ":stdin+undeclared-contig"
             self.add("C13", "unphase-crashed",
                      "%s raised %s: %s (in %s) on a well-formed VCF with call shapes %s%s" % (
                          what, tname, getattr(e, "message", str(e)), site, shapes,
@@ -1234,6 +1255,7 @@ def _workdir():
 class HistEngine(Engine):
     name = "histsim"
     properties = ("C09", "C13", "C17")
+    optimize_subpass = {"quick": 800, "thorough": 20000}  # cases of the second pass under python -O
 
     def tiers(self, prop):
         if prop == "C17":
